@@ -16,8 +16,8 @@ TECHNIQUE = (
 LEVEL_TEXT = (
     "Patterns are generated from the documented grammar (1-3 levels, comma lists of n, a-b, -b, a-, *, numbers at and around every level "
     "boundary and up to 70000, reversed and duplicated ranges, leading zeros; 'i-' internal globs over literals, ? and *). Each is "
-    "matched by the real code against a boundary-stratified sample of the 65,536 group addresses (thorough: a share of the patterns "
-    "against all 65,536) in the notation with the same number of levels, twice (same object forward, freshly built twin backward after "
+    "matched by the real code against a boundary-stratified sample of the 65,536 group addresses (a share of the patterns, 2 quick / "
+    "960 thorough, against all 65,536) in the notation with the same number of levels, twice (same object forward, freshly built twin backward after "
     "unrelated filters were built). Exploration: the pattern space is sampled."
 )
 LEVEL_NOTE = (
@@ -546,8 +546,8 @@ def exercise_outside(ctx, rng):
 def run(ctx):
     rng = ctx.rng
     ctx.rule = ("random patterns from the documented grammar (structure generated, then rendered); per pattern: addresses at/next to every "
-                "interval end of every level (product or random combinations) + random, thorough additionally all 65,536 for a share of "
-                "the patterns; distinct = (levels, item kinds per level, saw match, saw non-match) and glob shapes")
+                "interval end of every level (product or random combinations) + random; the first patterns of each shard (2 quick, 60 x 16 thorough) against all "
+                "65,536; distinct = (levels, item kinds per level, saw match, saw non-match) and glob shapes")
     ctx.require("match_calls", "expected_true", "expected_false", "patterns_1level", "patterns_2level", "patterns_3level",
                 "internal_match_calls", "internal_expected_true", "internal_expected_false", "callback_filter_checks", "cross_kind_checks")
     # reference self test (hand-computed cases from the statement)
